@@ -223,6 +223,11 @@ def judge(label, job, res, refs, wf_records, kind):
         elif not res["stderr"].strip():
             probs.append("no error message on stderr (exit %r)" % res["exit"])
         for f, content in outs.items():
+            if "flip@" in label:
+                # a flipped byte inside a deflate stream can decode to *other* well-formed-looking text before the checksum fails:
+                # what was written then stems from that text, not from the intact input; only exit status, message and
+                # termination are demanded (the property names truncated streams, not altered ones)
+                continue
             if not boundary_prefix(content, refs.get(f, b""), 2 if f.endswith(".fasta") else 4):
                 probs.append("output %s is not a record-boundary prefix of the output for the intact input" % f)
         if kind == "paired" and len(outs) == 2:
